@@ -374,6 +374,42 @@ pub fn execute(case: &str) -> String {
                 .trim_start()
                 .to_string()
         }
+        Some("hmap") => {
+            // direct tie of the ordered-multimap model to http::HeaderMap
+            let n: usize = it.next().unwrap().parse().unwrap();
+            let mut m = HeaderMap::new();
+            let mut out = Vec::new();
+            for _ in 0..n {
+                match it.next().unwrap() {
+                    "ins" => {
+                        let k = http::HeaderName::from_bytes(&unhex(it.next().unwrap()).unwrap()).unwrap();
+                        let v = HeaderValue::from_bytes(&unhex(it.next().unwrap()).unwrap()).unwrap();
+                        out.push(format!("prev:{}", opt_hex(m.insert(k, v).as_ref().map(|x| x.as_bytes()))));
+                    }
+                    "app" => {
+                        let k = http::HeaderName::from_bytes(&unhex(it.next().unwrap()).unwrap()).unwrap();
+                        let v = HeaderValue::from_bytes(&unhex(it.next().unwrap()).unwrap()).unwrap();
+                        out.push(format!("existed:{}", m.append(k, v) as u8));
+                    }
+                    "rm" => {
+                        let k = http::HeaderName::from_bytes(&unhex(it.next().unwrap()).unwrap()).unwrap();
+                        out.push(format!("removed:{}", opt_hex(m.remove(k).as_ref().map(|x| x.as_bytes()))));
+                    }
+                    "get" => {
+                        let k = String::from_utf8(unhex(it.next().unwrap()).unwrap()).unwrap();
+                        let all: Vec<String> = m.get_all(k.as_str()).iter().map(|v| hex(v.as_bytes())).collect();
+                        out.push(format!("got:{}:{}:{}", opt_hex(m.get(k.as_str()).map(|x| x.as_bytes())), m.contains_key(k.as_str()) as u8, all.join(",")));
+                    }
+                    "ext" => {
+                        let other = parse_entries(&mut it).unwrap();
+                        m.extend(other);
+                        out.push("extended".to_string());
+                    }
+                    _ => return "bad-case".into(),
+                }
+            }
+            format!("{} map {}", out.join(" "), render_map(&m)).trim_start().to_string()
+        }
         Some("e2e") => {
             let mode = it.next().unwrap().to_string();
             let code: i32 = it.next().unwrap().parse().unwrap();
@@ -412,7 +448,7 @@ fn e2e(mode: &str, code: i32, msg: String, det: Vec<u8>, req: Typed, resp: Typed
             seen.lock().unwrap().reqwire = Some(render_map(hreq.headers()));
             let mut server = tonic::server::Grpc::new(RawCodec);
             let seen_h = seen.clone();
-            let hresp = if mode == "sserr" {
+            let hresp = if mode == "sserr" || mode == "umix" {
                 let handler = tower::service_fn(move |r: Request<Vec<u8>>| {
                     seen_h.lock().unwrap().srv = Some(typed_view(r.metadata()));
                     let status = status.clone();
@@ -473,6 +509,8 @@ fn e2e(mode: &str, code: i32, msg: String, det: Vec<u8>, req: Typed, resp: Typed
                 Err(st) => format!("err {}", status_view(&st)),
             }
         } else {
+            // ("umix": a unary client against a server that answers headers + error trailers, as
+            // other gRPC servers do for a unary error after headers)
             match client.unary::<Vec<u8>, Vec<u8>, _>(request, path, RawCodec).await {
                 Ok(r) => format!("ok {}", typed_view(r.metadata())),
                 Err(st) => format!("err {}", status_view(&st)),
@@ -784,14 +822,48 @@ pub fn generate(tier: &str, rng: &mut Rng) -> Vec<String> {
     // corpus: reserved names in every position, forged protocol headers
     for r in RESERVED {
         let forged: Typed = vec![(false, b"x-a".to_vec(), b"1".to_vec()), (false, r.as_bytes().to_vec(), b"forged".to_vec()), (false, b"x-a".to_vec(), b"2".to_vec())];
-        for mode in ["ok", "err", "sserr"] {
+        for mode in ["ok", "err", "sserr", "umix"] {
             out.push(format!("e2e {} 5 {} x {} {} {}", mode, hex(b"nope"), typed_tok(&forged), typed_tok(&forged), typed_tok(&forged)));
         }
     }
+    // ---- http::HeaderMap operations against the multimap model
+    let nh = if thorough { 40000 } else { 3000 };
+    for _ in 0..nh {
+        let n = rng.range(1, 8);
+        let mut toks = vec![format!("hmap {}", n)];
+        const NAMES: [&str; 5] = ["a", "b", "x-c", "te", "k-bin"];
+        for _ in 0..n {
+            let k = rng.pick(&NAMES).as_bytes().to_vec();
+            match rng.below(7) {
+                0 | 1 => toks.push(format!("ins {} {}", hex(&k), hex(&gen_value(rng)))),
+                2 | 3 => toks.push(format!("app {} {}", hex(&k), hex(&gen_value(rng)))),
+                4 => toks.push(format!("rm {}", hex(&k))),
+                5 => {
+                    let mut q = k.clone();
+                    if rng.chance(1, 2) {
+                        q = q.to_ascii_uppercase();
+                    }
+                    if rng.chance(1, 10) {
+                        q = b"not a name".to_vec();
+                    }
+                    toks.push(format!("get {}", hex(&q)))
+                }
+                _ => {
+                    let cnt = rng.range(0, 4);
+                    let mut es: Vec<(Vec<u8>, Vec<u8>)> = Vec::new();
+                    for _ in 0..cnt {
+                        es.push((rng.pick(&NAMES).as_bytes().to_vec(), gen_value(rng)));
+                    }
+                    toks.push(format!("ext {}", entries_tok(&es)));
+                }
+            }
+        }
+        out.push(toks.join(" "));
+    }
     let ne = if thorough { 40000 } else { 2500 };
     for _ in 0..ne {
-        let mode = *rng.pick(&["ok", "ok", "err", "sserr"]);
-        let code = if mode == "err" { rng.range(1, 16) } else { rng.below(17) };
+        let mode = *rng.pick(&["ok", "ok", "err", "sserr", "umix"]);
+        let code = if mode == "err" || mode == "umix" { rng.range(1, 16) } else { rng.below(17) };
         let msg: &str = *rng.pick(&["", "boom", "é %", "a\nb"]);
         let det = if rng.chance(1, 3) { gen_bin_value(rng) } else { vec![] };
         let req = gen_typed(rng, 6);
